@@ -70,7 +70,11 @@ func Mutate(r *fw.Rand, in []byte) []byte {
 	case 4: // extension length field +-1 (if an extension header is in range)
 		off := 12 + 4*int(b[0]&0x0F) + 3
 		if off < len(b) {
-			b[off] += byte(r.Pick(1, 255, 2, 254))
+			if r.Chance(1, 4) {
+				b[off-1] ^= byte(r.Pick(0x40, 0x80, 0xC0, 0x01)) // high byte: lengths beyond 16 bits of bytes
+			} else {
+				b[off] += byte(r.Pick(1, 255, 2, 254))
+			}
 		}
 	case 5: // padding count
 		b[len(b)-1] = byte(r.Pick(0, 1, len(b)-12, len(b)-11, len(b)-13, len(b), 255, int(b[len(b)-1])+1, int(b[len(b)-1])-1))
